@@ -610,3 +610,109 @@ func escRun(e escProgram, s string) string {
 	}
 	return s
 }
+
+// localTableCell: v reads field #cell of a row of a local table (a slice or array literal of structs built in the
+// function, ranged over directly or through the loop variable's copy). Returns the rows of the literal: for each row the
+// value stored into each field (nil where the literal leaves the zero value).
+func localTableCell(v ssa.Value) (rows [][]ssa.Value, cell int, ok bool) {
+	u, isU := v.(*ssa.UnOp)
+	if !isU || u.Op != token.MUL {
+		return nil, 0, false
+	}
+	fa, isFA := u.X.(*ssa.FieldAddr)
+	if !isFA {
+		return nil, 0, false
+	}
+	rowTable := func(x ssa.Value) *ssa.Alloc {
+		ia, ok := x.(*ssa.IndexAddr)
+		if !ok {
+			return nil
+		}
+		base := ia.X
+		if sl, ok := base.(*ssa.Slice); ok && sl.Low == nil && sl.High == nil {
+			base = sl.X
+		}
+		al, ok := base.(*ssa.Alloc)
+		if !ok {
+			return nil
+		}
+		if _, isArr := al.Type().Underlying().(*types.Pointer).Elem().Underlying().(*types.Array); !isArr {
+			return nil
+		}
+		return al
+	}
+	table := rowTable(fa.X)
+	if table == nil {
+		if cellAl, isAl := fa.X.(*ssa.Alloc); isAl {
+			for _, r := range *cellAl.Referrers() {
+				if st, ok := r.(*ssa.Store); ok && st.Addr == ssa.Value(cellAl) {
+					ld, ok := st.Val.(*ssa.UnOp)
+					if !ok || ld.Op != token.MUL {
+						return nil, 0, false
+					}
+					t := rowTable(ld.X)
+					if t == nil || (table != nil && t != table) {
+						return nil, 0, false
+					}
+					table = t
+				}
+			}
+		}
+	}
+	if table == nil {
+		return nil, 0, false
+	}
+	at := table.Type().Underlying().(*types.Pointer).Elem().Underlying().(*types.Array)
+	st, isSt := at.Elem().Underlying().(*types.Struct)
+	if !isSt {
+		return nil, 0, false
+	}
+	rows = make([][]ssa.Value, at.Len())
+	for i := range rows {
+		rows[i] = make([]ssa.Value, st.NumFields())
+	}
+	put := func(k int64, f int, val ssa.Value) {
+		if k >= 0 && k < at.Len() && f < st.NumFields() {
+			rows[k][f] = val
+		}
+	}
+	for _, r := range *table.Referrers() {
+		ia, ok := r.(*ssa.IndexAddr)
+		if !ok {
+			continue
+		}
+		k, isC := constInt(ia.Index)
+		if !isC {
+			continue // a read through the loop index
+		}
+		for _, r1 := range *ia.Referrers() {
+			switch y := r1.(type) {
+			case *ssa.FieldAddr:
+				for _, r2 := range *y.Referrers() {
+					if s2, ok := r2.(*ssa.Store); ok && s2.Addr == ssa.Value(y) {
+						put(k, y.Field, s2.Val)
+					}
+				}
+			case *ssa.Store:
+				// a whole row copied from a literal built in a local
+				if y.Addr != ssa.Value(ia) {
+					continue
+				}
+				if ld, ok := y.Val.(*ssa.UnOp); ok && ld.Op == token.MUL {
+					if lit, ok := ld.X.(*ssa.Alloc); ok {
+						for _, r3 := range *lit.Referrers() {
+							if lfa, ok := r3.(*ssa.FieldAddr); ok {
+								for _, r4 := range *lfa.Referrers() {
+									if s4, ok := r4.(*ssa.Store); ok && s4.Addr == ssa.Value(lfa) {
+										put(k, lfa.Field, s4.Val)
+									}
+								}
+							}
+						}
+					}
+				}
+			}
+		}
+	}
+	return rows, fa.Field, true
+}
